@@ -302,6 +302,17 @@ pub fn pools() -> &'static Pools {
                 for bit in 0..(s.bytes.len().min(64) * 8) {
                     exhaustive.push((i as u32, 1u8, bit as u32));
                 }
+                // JSON documents: every structure-aware fault at every node
+                if s.kind.ends_with("_json") {
+                    if let Ok(v) = serde_json::from_slice::<Value>(&s.bytes) {
+                        let nodes = json_nodes(&v).min(4000);
+                        for t in 0..nodes {
+                            for mode in 0..9u32 {
+                                exhaustive.push((i as u32, 5u8, (t as u32) * 16 + mode));
+                            }
+                        }
+                    }
+                }
                 // the compact, feature-dense generated documents additionally get, at every
                 // position: a stray escape character, a stray quote, a lost byte
                 if s.name.starts_with("gen_") && !s.name.starts_with("gen_nested") {
@@ -1302,6 +1313,21 @@ impl World for StorageFaults {
                     b.insert(pos as usize, b'"');
                     "quote_insert"
                 }
+                5 => {
+                    if let Ok(mut v) = serde_json::from_slice::<Value>(&b) {
+                        let (target, mode) = ((pos / 16) as usize, (pos % 16) as usize);
+                        let mut k = 0usize;
+                        if mode >= 7 {
+                            if let Some(sub) = json_nth(&v, target, &mut k) {
+                                v = sub;
+                            }
+                        } else {
+                            json_mutate(&mut v, target, &mut k, mode, (target + mode) % 5);
+                        }
+                        b = serde_json::to_vec(&v).unwrap_or_default();
+                    }
+                    "json_subtree_lost_or_retyped"
+                }
                 _ => {
                     b.remove(pos as usize);
                     "byte_lost"
@@ -1378,7 +1404,7 @@ impl World for StorageFaults {
         out
     }
     fn rule(&self) -> &'static str {
-        "cases = (stored document, fault plan, entry point, knobs): documents are the repo's sample policies / schemas / entities / contexts / JSON policies (copied to sim/corpus), generated ones (every operator, extension calls, escapes, i64 boundaries, nesting up to 48), cedar's own protobuf encodings of them and FFI call envelopes; the quick tier first ENUMERATES every truncation point and every single-bit flip in the first 64 bytes of every document of at most 2 KiB, and for the generated documents every position of a stray escape character, a stray quote and a lost byte, through the native entry point; then it samples 1-4 faults per case (torn write, bit flip, token overwrite/insert/loss, structure-aware loss or retyping of a JSON sub-document, zero range, duplicate range, drop range, splice with another document, lost write, invalid UTF-8, byte swap, stray escape character, document replaced by one of its own sub-documents, wrong-format delivery) plus reader faults (short reads, EINTR, hard error at byte k) and writer faults; each case runs parse -> {print, to_json, to_pst, proto round trip, format at 3 widths, validate strict/permissive/level, authorize 3 requests, link templates} or renders the error (Display, Debug, help, labels, miette graphical/narratable/JSON with source) in a crash-isolated worker process; non-trivial = case whose faulted document was still accepted by its entry point (so post-parse stages ran); distinct by hash of (entry point, faulted bytes)"
+        "cases = (stored document, fault plan, entry point, knobs): documents are the repo's sample policies / schemas / entities / contexts / JSON policies (copied to sim/corpus), generated ones (every operator, extension calls, escapes, i64 boundaries, nesting up to 48), cedar's own protobuf encodings of them and FFI call envelopes; the quick tier first ENUMERATES every truncation point and every single-bit flip in the first 64 bytes of every document of at most 2 KiB, for JSON documents every structure-aware fault at every node, and for the generated documents every position of a stray escape character, a stray quote and a lost byte, through the native entry point; then it samples 1-4 faults per case (torn write, bit flip, token overwrite/insert/loss, structure-aware loss or retyping of a JSON sub-document, zero range, duplicate range, drop range, splice with another document, lost write, invalid UTF-8, byte swap, stray escape character, document replaced by one of its own sub-documents, wrong-format delivery) plus reader faults (short reads, EINTR, hard error at byte k) and writer faults; each case runs parse -> {print, to_json, to_pst, proto round trip, format at 3 widths, validate strict/permissive/level, authorize 3 requests, link templates} or renders the error (Display, Debug, help, labels, miette graphical/narratable/JSON with source) in a crash-isolated worker process; non-trivial = case whose faulted document was still accepted by its entry point (so post-parse stages ran); distinct by hash of (entry point, faulted bytes)"
     }
     fn real_components(&self) -> Vec<&'static str> {
         vec!["every text/JSON/protobuf/FFI entry point of cedar_policy listed in DESIGN.md 4.6", "formatter, validator, authorizer, template linking, printers and converters on whatever parsed", "error rendering through miette (graphical, narratable, JSON) with source code attached", "impl Read / impl Write entry points (from_json_file, from_cedarschema_file, write_to_json)"]
